@@ -688,6 +688,20 @@ func (R *Renderer) counterConds(p *ssa.Phi) ([]string, bool) {
 	if !isIntType(p.Type()) {
 		return nil, false
 	}
+	// a two-edge phi (0 on entry, itself+1 on the ONLY back edge) is incremented on every
+	// iteration that continues: a position, even when the body leaves the loop early (search
+	// loops with `break` / `return` in front of the post statement)
+	if len(p.Edges) == 2 && len(p.Block().Preds) == 2 {
+		for i, e := range p.Edges {
+			c0, isC := p.Edges[1-i].(*ssa.Const)
+			bo, isB := e.(*ssa.BinOp)
+			if isC && isB && c0.Value != nil && c0.Value.String() == "0" && bo.Op == token.ADD && bo.X == ssa.Value(p) {
+				if k, ok := bo.Y.(*ssa.Const); ok && k.Value != nil && k.Value.String() == "1" {
+					return nil, true
+				}
+			}
+		}
+	}
 	closure := map[*ssa.Phi]bool{}
 	var adds []*ssa.BinOp
 	var inits []string
